@@ -27,6 +27,8 @@ var registry = map[string]checkFn{
 	"C17": checkC17,
 	"C18": checkC18,
 	"C19": checkC19,
+	"C20": checkC20,
+	"C21": checkC21,
 	"C22": checkC22,
 	"C25": checkC25,
 	"C28": checkC28,
